@@ -71,21 +71,21 @@ type tmplInfo struct {
 }
 
 type expSession struct {
-	env    *Env
-	proto  string
-	domain uint32
-	ep     *exporter.ExportingProcess
-	mu     sync.Mutex
-	wire   []wireMsg
-	calls  []callRec
-	tmpls  map[int]*tmplInfo
-	set    entities.Set
-	appGID uint64
-	inCall int
-	closed bool
-	closeAt time.Time
-	refresh time.Duration
-	addr   string
+	env      *Env
+	proto    string
+	domain   uint32
+	ep       *exporter.ExportingProcess
+	mu       sync.Mutex
+	wire     []wireMsg
+	calls    []callRec
+	tmpls    map[int]*tmplInfo
+	set      entities.Set
+	appGID   uint64
+	inCall   int
+	closed   bool
+	closeAt  time.Time
+	refresh  time.Duration
+	addr     string
 	listener *simnet.Listener
 	seqMarks []seqMark
 }
